@@ -115,8 +115,8 @@ func vfAgreeAnalyzer(kind int) *analysis.Analyzer {
 // boolean must) and the real term/conjunction searchers over a one-document
 // reader built from the index side's terms.
 //
-// vf:harness property=C18 cases=L:0..2;kind:0..3|L:3;kind:1 cases.thorough=L:0..4;kind:0..3 maxpaths=400000 unwind=400 diff=off
-// vf:bounds every text of L bytes (quick <= 2, and 3 for the apostrophe analyzer; thorough <= 4; invalid UTF-8 included); analyzers: whitespace, whitespace+apostrophe (can yield empty terms), whitespace+truncate(1) (can make tokens coincide), single token; stored and unstored field, AND operator
+// vf:harness property=C18 cases=L:0..2;kind:0..3 cases.thorough=L:0..4;kind:0..3 maxpaths=400000 unwind=400 diff=off
+// vf:bounds every text of L bytes (quick <= 2, thorough <= 4; invalid UTF-8 included); analyzers: whitespace, whitespace+apostrophe (can yield empty terms), whitespace+truncate(1) (can make tokens coincide), single token; stored and unstored field, AND operator
 // vf:assume the one-document reader stands for the index (postings of a term = {doc 0} iff the field's analysis produced the term); BM25 statistics are concrete (1 document)
 func VF_C18_MatchOwnText(L int, kind int) {
 	text := vfString("text", L)
